@@ -111,6 +111,36 @@ def observe(case, custom=None):
             case.fd_obs = ('escape', e)
 
 
+def _has_nan(v):
+    import math
+    if isinstance(v, float):
+        return math.isnan(v)
+    if isinstance(v, complex):
+        return math.isnan(v.real) or math.isnan(v.imag)
+    if isinstance(v, (list, tuple, set, frozenset)):
+        return any(_has_nan(x) for x in v)
+    if isinstance(v, dict):
+        return any(_has_nan(k) or _has_nan(x) for k, x in v.items())
+    info = getattr(type(v), '__pane_info__', None)
+    if info is not None:
+        return any(_has_nan(getattr(v, f.name, None)) for f in info.fields)
+    return False
+
+
+def nan_in_hashed(v):
+    """a NaN inside a set element or a mapping key (where Python compares by identity first)"""
+    if isinstance(v, (set, frozenset)):
+        return any(_has_nan(x) for x in v)
+    if isinstance(v, dict):
+        return any(_has_nan(k) for k in v) or any(nan_in_hashed(x) for x in v.values())
+    if isinstance(v, (list, tuple)):
+        return any(nan_in_hashed(x) for x in v)
+    info = getattr(type(v), '__pane_info__', None)
+    if info is not None:
+        return any(nan_in_hashed(getattr(v, f.name, None)) for f in info.fields)
+    return False
+
+
 def render(case):
     """Coq tuple (ty, value, observed try, observed collect) or None when outside the term language"""
     if not case.built.coq or 'None' == case.built.coq or '%NOCOQ%' in case.built.coq:
@@ -119,6 +149,8 @@ def render(case):
         v = val_to_coq(case.value)
         o = case.try_obs
         if o[0] == 'ok':
+            if nan_in_hashed(o[1]):
+                return None     # Python's sets and dicts find a NaN by object identity; identity is not in the model
             ot = f'(Ok {val_to_coq(o[1])})'
         elif o[0] == 'reject':
             ot = 'Reject'
